@@ -264,7 +264,10 @@ func receiveUnaryResponse[T any](conn StreamingClientConn) (*Response[T], error)
 	if err := conn.Receive(new(T)); err == nil {
 		return nil, NewError(CodeUnknown, errors.New("unary stream has multiple messages"))
 	} else if err != nil && !errors.Is(err, io.EOF) {
-		return nil, NewError(CodeUnknown, err)
+		// The server reported an error after sending the response message (for
+		// example, from an interceptor). The error is already coded, so hand it
+		// to the caller as-is rather than hiding its code, details, and metadata.
+		return nil, err
 	}
 	return &Response[T]{
 		Msg:     &msg,
